@@ -87,7 +87,35 @@ def _extract(t):
     return t
 
 
+_TERMFILES = {}
+
+
+def _terminal_file(kind):
+    import os
+    from .runner import scratch
+    path = _TERMFILES.get(kind)
+    if path is None or not os.path.exists(path):
+        path = os.path.join(scratch(), 'pool-%s-%d.txt' % (kind, os.getpid()))
+        with open(path, 'w', encoding='utf-8') as f:
+            # entries for the pool's sentence id (7) and for a foreign sentence
+            f.write('3 1 other OT\n7 1 %s XY\n' % kind)
+        _TERMFILES[kind] = path
+    return path
+
+
+def _insert_terminal(t):
+    from trees import transform
+    return transform.insert_terminals(t, terminalfile=_terminal_file('ins'), quiet=True)
+
+
+def _substitute_terminal(t):
+    from trees import transform
+    return transform.substitute_terminals(t, terminalfile=_terminal_file('sub'), quiet=True)
+
+
 EXTRA_OPS = collections.OrderedDict([
+    ('insert_terminal', _insert_terminal),
+    ('substitute_terminal', _substitute_terminal),
     ('delete_first', _delete('first')),
     ('delete_last', _delete('last')),
     ('write_export', _write_export),
@@ -103,20 +131,27 @@ _OTHER = [None]
 
 
 def read_other():
-    """Part of every live history: between any two steps another (smaller) sentence is read with the export
-    reader, as in `trees = list(reader)` followed by work on the individual trees."""
+    """Part of every live history: between any two steps two other sentences are read with one of the readers (export,
+    TIGER-XML, brackets in turn), as in `trees = list(reader)` followed by work on the individual trees."""
     import os
     from .runner import scratch
     from . import codecs
     from trees import treeinput
-    if _OTHER[0] is None or not os.path.exists(_OTHER[0]):
-        path = os.path.join(scratch(), 'other-%d.export' % os.getpid())
-        other = model.MT(99, model.mk_tokens(1, words=['x'], pos=['XY']), ('VROOT', '--', (1,)))
-        with open(path, 'w', encoding='utf-8') as f:
-            f.write(codecs.encode_export([other]))
-        _OTHER[0] = path
+    if _OTHER[0] is None or not all(os.path.exists(p) for p in _OTHER[0]):
+        base = os.path.join(scratch(), 'other-%d' % os.getpid())
+        other = [model.MT(99, model.mk_tokens(2, words=['x', ','], pos=['XY', '$,']), ('VROOT', '--', (('NP', 'HD', (1,)), 2))),
+                 model.MT(100, model.mk_tokens(1, words=['y'], pos=['XY']), ('VROOT', '--', (1,)))]
+        texts = {'.export': codecs.encode_export(other), '.xml': codecs.encode_tigerxml(other), '.mrg': codecs.encode_brackets(other)}
+        for ext, text in texts.items():
+            with open(base + ext, 'w', encoding='utf-8') as f:
+                f.write(text)
+        _OTHER[0] = [base + '.export', base + '.xml', base + '.mrg']
+        _OTHER.append(0)
+    _OTHER[1] = (_OTHER[1] + 1) % 3
+    path = _OTHER[0][_OTHER[1]]
+    reader = [treeinput.export, treeinput.tigerxml, treeinput.brackets][_OTHER[1]]
     with quiet():
-        for _ in treeinput.export(_OTHER[0], 'utf-8', quiet=True):
+        for _ in reader(path, 'utf-8', quiet=True):
             pass
 
 
@@ -161,6 +196,10 @@ def _enabled(name, flags, t):
     if name in EXTRA_OPS:
         if bare:
             return False
+        if name == 'insert_terminal':
+            return 'split' not in flags and len(raw_leaves(t)) <= 3
+        if name == 'substitute_terminal':
+            return True
         if name.startswith('delete_'):
             # the prerequisite marks of head marking / splitting are not maintained by a deletion
             return len(raw_leaves(t)) >= 3 and 'split' not in flags
@@ -173,7 +212,7 @@ def _enabled(name, flags, t):
 def _next_flags(name, flags):
     from .props import c04
     if name in EXTRA_OPS:
-        if name.startswith('delete_'):
+        if name.startswith('delete_') or name == 'insert_terminal':
             f = set(flags)
             f.discard('heads')      # a deletion may remove the head child
             f.discard('ra')         # ... and may empty a gap or open one at the root
@@ -264,7 +303,7 @@ def live_states(inits, depth, skip_ops=(), first=0):
                 read_other()
                 with short_watchdog(), quiet():
                     r = fn(t)
-                n_exp = n_before - 1 if name.startswith('delete_') else n_before
+                n_exp = n_before - 1 if name.startswith('delete_') else n_before + 1 if name == 'insert_terminal' else n_before
                 if r is None or monitor(r, n_exp):
                     counts['dead'] += 1
                     continue
